@@ -76,7 +76,8 @@ def mdoc_case(draw):
         st.fixed_dictionaries({"op": st.just("remove"), "picks": st.lists(st.integers(0, 200), min_size=1, max_size=5), "from1": st.booleans()}),
     ), max_size=4))
     return {"kind": "mdoc", "header": header, "titles": titles, "sections": sections, "zvalues": list(zvals), "ops": ops,
-            "blank_lines": draw(st.booleans()), "via_helpers": draw(st.integers(0, 3)) == 0, "trailing_nl": draw(st.booleans())}
+            "blank_lines": draw(st.booleans()), "via_helpers": draw(st.integers(0, 3)) == 0, "trailing_nl": draw(st.booleans()),
+            "key_order": draw(st.sampled_from(["same", "same", "varies"]))}
 
 
 @st.composite
@@ -135,9 +136,12 @@ def render_mdoc(c):
         L.append(f"[{t}]")
         if c["blank_lines"]:
             L.append("")
-    for z, sec in zip(c["zvalues"], c["sections"]):
+    for i_, (z, sec) in enumerate(zip(c["zvalues"], c["sections"])):
         L.append(f"[ZValue = {z}]")
-        for k, v in sec.items():
+        items = list(sec.items())
+        if c.get("key_order") == "varies" and i_ % 2 == 1:  # entries are addressed by key: their order inside a section is free
+            items = items[1:] + items[:1] if i_ % 4 == 1 else items[::-1]
+        for k, v in items:
             L.append(f"{k} = {v}")
         L.append("")
     return "\n".join(L) + ("\n" if c["trailing_nl"] else "")
@@ -384,6 +388,9 @@ def run_loaders(c, out):
     out.nontrivial = n >= 2
     if which == "tlt":
         t = np.sort(np.round(rng.uniform(-70, 70, n), 2))
+        if n >= 3 and c["seed"] % 3 == 0:  # an image taken twice at the same nominal tilt (both branches of a bidirectional series record 0)
+            t[1] = t[0]
+            out.label("tlt_with_repeated_angle")
         vals = rng.permutation(t) if c["permute"] else t
         if c["as"] == "file":
             with open("a.tlt", "w") as f:
@@ -659,6 +666,26 @@ def run_wedge(c, out):
         cols = {l: [float(rw[j]) for rw in b["rows"]] for j, l in enumerate(b["labels"])}
         if not compare_table(lambda col: cols.get(col), len(b["rows"]), rows, "sg_wedge_file", 2e-6):
             return
+        if T >= 1 and c["seed"] % 2 == 0:
+            # the same list with its rows in acquisition-like order inside every tomogram (written by the harness): the EM
+            # form still holds each tomogram's smallest and largest tilt
+            pr = np.random.default_rng(c["seed"] + 5)
+            by_t = {}
+            for rw in b["rows"]:
+                by_t.setdefault(rw[b["labels"].index("tomo_num")], []).append(rw)
+            with open("wl_perm.star", "w") as fp_:
+                fp_.write("\ndata_stopgap_wedgelist\n\nloop_\n" + "".join(f"_{l}\n" for l in b["labels"]) + "\n")
+                for tk in by_t:
+                    for j_ in pr.permutation(len(by_t[tk])):
+                        fp_.write("\t".join(by_t[tk][j_]) + "\n")
+                fp_.write("\n")
+            out.label("sg_to_em:rows_unsorted_within_tomogram")
+            ok, e3 = call(out, "wedge_list_sg_to_em(unsorted rows)", lambda: wedgeutils.wedge_list_sg_to_em("wl_perm.star", "conv_perm.em", write_out=True))
+            if ok:
+                want3 = np.array([[t, np.float32(tilts[t].min()), np.float32(tilts[t].max())] for t in sorted(ts)], dtype=float)
+                got3 = e3.to_numpy(dtype=float)
+                got3 = got3[np.argsort(got3[:, 0], kind="stable")] if got3.ndim == 2 and got3.shape[1] == 3 else got3
+                out.check(got3.shape == want3.shape and bool(np.all(np.abs(got3 - want3) <= 2e-6 * np.maximum(1, np.abs(want3)))), "sg_to_em:not_min_max_when_rows_are_not_sorted", lambda: f"{got3[:3].tolist()} vs {want3[:3].tolist()}")
         if T >= 1:
             ok, e2 = call(out, "wedge_list_sg_to_em", lambda: wedgeutils.wedge_list_sg_to_em(outp, "conv.em", write_out=True))
             if ok:
